@@ -882,6 +882,15 @@ class Variable(CanBehaveLikeAVariable[T]):
         # has to be after super init because this needs the node of this variable to be initialized first.
         self._update_child_vars_from_kwargs_()
 
+    @lru_cache(maxsize=None)
+    def _required_variables_from_child_(self, child: Optional[SymbolicExpression] = None, when_true: bool = True):
+        required_vars = super()._required_variables_from_child_(child, when_true)
+        # the arguments of the constructor are evaluated once for every binding of the variables that the arguments
+        # mention: results of an argument (e.g. of a sub-query) under one such binding are not duplicates of its results
+        # under another.
+        required_vars.update(self._unique_variables_)
+        return required_vars
+
     def _validate_inputs_and_fill_missing_ones_(self):
         if self._kwargs_ and not self._type_:
             raise ValueError(f"Variable {self._name_} has class keyword arguments but no type is specified.")
